@@ -126,20 +126,18 @@ func runPool(cfg poolCfg, ops []poolOp) poolResult {
 				r.msg = fmt.Sprintf("step %d: Get(%d) returned a buffer of capacity %d", i, op.sz, cap(*b))
 				return r
 			}
-			if cap(*b) == 0 {
-				r.msg = fmt.Sprintf("step %d: Get(%d) returned a zero-capacity buffer", i, op.sz)
-				return r
-			}
 			for _, o := range out {
-				if o.b == b || base(*o.b) == base(*b) {
+				if o.b == b || (cap(*b) > 0 && cap(*o.b) > 0 && base(*o.b) == base(*b)) {
 					r.msg = fmt.Sprintf("step %d: Get(%d) handed out a buffer that is still outstanding (request %d)", i, op.sz, o.req)
 					return r
 				}
 			}
-			if everSeen[base(*b)] {
-				reused++
+			if cap(*b) > 0 {
+				if everSeen[base(*b)] {
+					reused++
+				}
+				everSeen[base(*b)] = true
 			}
-			everSeen[base(*b)] = true
 			if cap(*b) > op.sz {
 				rounded++
 			}
